@@ -242,6 +242,7 @@ class Program:
                     raise AnalysisError(f"{rel}: does not compile: {exc}") from exc
                 unrolled = unroll_literal_tables(tree)
                 normalise_augassign(tree)
+                split_annassign(tree)
                 self.modules[modname] = ModuleInfo(modname, path, rel, src, tree, is_package=is_pkg)
                 if unrolled:
                     self.unrolled.extend(f"{rel}:{ln}" for ln in unrolled)
@@ -626,6 +627,8 @@ def canonicalise_private_attributes(prog: "Program") -> dict[str, str]:
 # ----------------------------------------------------------------------------- constants introduced for readability
 # class-level constants the rules refer to by name: never folded
 NAMED_CLASS_CONSTANTS = {"KEY", "UPDATE_DELAYED_EVERY", "POLLING_WAIT", "PREFETCH_AMOUNT"}
+# module-level constants the rules refer to by name: never folded
+NAMED_MODULE_CONSTANTS = {"WRAPPED", "SUBSCRIBERS_NAMES"}
 
 
 def _literal(e: ast.AST | None) -> bool:
@@ -675,6 +678,8 @@ def fold_constants(prog: "Program") -> list[str]:
         top_targets = {t for t in binds}
         consts = {}
         for name, vals in binds.items():
+            if name in NAMED_MODULE_CONSTANTS:
+                continue
             v0 = vals[0] if len(vals) == 1 else None
             if isinstance(v0, ast.List) and all(_literal(x) for x in v0.elts):
                 # a literal list used as a constant: never mutated (no method call on it, no item store, not passed on by name except to `in` / iteration)
@@ -767,6 +772,23 @@ def fold_constants(prog: "Program") -> list[str]:
             fn.body = [T().visit(st) for st in fn.body]
             # decorators, defaults and annotations are left as written
 
+        def fold_toplevel(st: ast.stmt) -> None:
+            """module-level `NAME = <expression using other constants>`: the expression reads with the constants' values"""
+            if not isinstance(st, (ast.Assign, ast.AnnAssign)) or st.value is None:
+                return
+            own_t = {t.id for t in (st.targets if isinstance(st, ast.Assign) else [st.target]) if isinstance(t, ast.Name)}
+            bound = {x.id for x in ast.walk(st.value) if isinstance(x, ast.Name) and isinstance(x.ctx, ast.Store)}  # comprehension variables
+
+            class TT(ast.NodeTransformer):
+                def visit_Name(self, node):
+                    if isinstance(node.ctx, ast.Load) and node.id in table and node.id not in own_t and node.id not in bound:
+                        changed[0] = True
+                        folded.append(f"{m.name}.{node.id}")
+                        return ast.copy_location(copy.deepcopy(table[node.id]), node)
+                    return node
+
+            st.value = TT().visit(st.value)
+
         def walk(body, cls_name):
             for st in body:
                 if isinstance(st, (ast.FunctionDef, ast.AsyncFunctionDef)):
@@ -776,6 +798,8 @@ def fold_constants(prog: "Program") -> list[str]:
                 elif isinstance(st, (ast.If, ast.Try)):
                     walk(getattr(st, "body", []), cls_name)
                     walk(getattr(st, "orelse", []), cls_name)
+                elif cls_name is None:
+                    fold_toplevel(st)
 
         walk(m.tree.body, None)
         if changed[0]:
@@ -948,3 +972,74 @@ def canonicalise_private_params(prog: "Program") -> list[str]:
                     k.arg = plan[k.arg]
         renamed.extend(f"{h.short()}({p} -> {a})" for p, a in plan.items())
     return sorted(renamed)
+
+
+def merge_if_else_assign(tree: ast.AST) -> int:
+    """`if c: x = a` / `else: x = b` (one plain assignment to the same target in each arm, nothing else) read as `x = a if c else b`."""
+    n = 0
+
+    def tgt(s):
+        if isinstance(s, ast.Assign) and len(s.targets) == 1 and isinstance(s.targets[0], (ast.Name, ast.Attribute)):
+            return s.targets[0]
+        if isinstance(s, ast.AnnAssign) and s.value is not None and isinstance(s.target, (ast.Name, ast.Attribute)):
+            return s.target
+        return None
+
+    class T(ast.NodeTransformer):
+        def visit_If(self, node):
+            nonlocal n
+            self.generic_visit(node)
+            if len(node.body) == 1 and len(node.orelse) == 1:
+                a, b = node.body[0], node.orelse[0]
+                ta, tb = tgt(a), tgt(b)
+                if ta is not None and tb is not None and ast.unparse(ta) == ast.unparse(tb):
+                    n += 1
+                    new = ast.Assign(targets=[ta], value=ast.IfExp(test=node.test, body=a.value, orelse=b.value))
+                    return ast.copy_location(new, node)
+            return node
+
+    T().visit(tree)
+    if n:
+        ast.fix_missing_locations(tree)
+    return n
+
+
+def split_annassign(tree: ast.AST) -> int:
+    """Inside functions, `x: T = v` is read as the bare declaration `x: T` followed by `x = v`, so that adding or removing a type annotation
+    on an assignment does not change what the rules see (they look at plain assignments; the resolver still finds the annotation)."""
+    n = 0
+
+    class T(ast.NodeTransformer):
+        def __init__(self):
+            self.depth = 0
+
+        def visit_FunctionDef(self, node):
+            self.depth += 1
+            self.generic_visit(node)
+            self.depth -= 1
+            return node
+
+        visit_AsyncFunctionDef = visit_FunctionDef
+
+        def visit_ClassDef(self, node):
+            d, self.depth = self.depth, 0  # class bodies keep their annotated fields
+            self.generic_visit(node)
+            self.depth = d
+            return node
+
+        def visit_AnnAssign(self, node):
+            nonlocal n
+            if self.depth > 0 and node.value is not None:
+                n += 1
+                decl = ast.copy_location(ast.AnnAssign(target=node.target, annotation=node.annotation, value=None, simple=node.simple), node)
+                import copy
+
+                tgt = copy.deepcopy(node.target)
+                asg = ast.copy_location(ast.Assign(targets=[tgt], value=node.value), node)
+                return [decl, asg]
+            return node
+
+    T().visit(tree)
+    if n:
+        ast.fix_missing_locations(tree)
+    return n
